@@ -377,6 +377,10 @@ func (fr *FileReader) readerForOffset(ctx context.Context, off int64) (io.ReadCl
 	if err != nil {
 		return nil, err
 	}
+	// Only the rest of this part may be read, not all of its Size again
+	// from where we start in it: the blob (or bytes tree) it refers to can
+	// be longer than the part.
+	partRemain := int64(p0.Size) - offRemain
 	offRemain += int64(p0.Offset)
 	if offRemain > 0 {
 		newPos, err := rsc.Seek(offRemain, io.SeekStart)
@@ -391,7 +395,7 @@ func (fr *FileReader) readerForOffset(ctx context.Context, off int64) (io.ReadCl
 		io.Reader
 		io.Closer
 	}{
-		io.LimitReader(rsc, int64(p0.Size)),
+		io.LimitReader(rsc, partRemain),
 		rsc,
 	}, nil
 }
